@@ -217,7 +217,9 @@ func (w *World) GenOp(ctx sdk.Context, p PoolInfo) Op {
 			tag += "/not-owner"
 		}
 		return Op{Kind: "decrease", Sender: s, Pid: q.Id, Liq: l, Tag: tag}
-	case k < 84: // increase
+	case k < 84 && len(poss) > 1: // increase (not on a pool's only position: the implicit full
+		// withdrawal would reset the pool and re-initialise it at the ratio of the withdrawn
+		// amounts, thousands of ticks away, where the model's linear search is too slow)
 		q := poss[r.Intn(len(poss))]
 		owner := w.userIndex(q.Address)
 		s := owner
